@@ -56,11 +56,17 @@ class ProtoImporter:
         """Get a (potentially nested) namespace at `path`, creating levels along the way if necessary ."""
         ns = self.ns
         for part in path:
-            attr = getattr(ns, part, None)
+            # Children are looked up among the namespace's own entries: a path segment may be spelled like
+            # something every namespace has (`__dict__`, `__class__`), or like its `name` entry.
+            children = vars(ns)
+            attr = children.get(part, None)
+            if part == "name" and isinstance(attr, str):
+                # The namespace's own name, not a child: a path segment called `name` takes the entry.
+                attr = None
             if attr is None:  # Create a new Namespce
                 new_ns = SimpleNamespace()
                 new_ns.name = part
-                setattr(ns, part, new_ns)
+                children[part] = new_ns
                 ns = new_ns
             elif isinstance(attr, SimpleNamespace):
                 ns = attr
@@ -135,7 +141,7 @@ class ProtoImporter:
 
         # Add the Module to our cache and return-namespace, and return it
         self.modules[pmod.name] = module
-        setattr(ns, module.name, module)
+        vars(ns)[module.name] = module
         return module
 
     def import_instance(self, pinst: vckt.Instance) -> Instance:
